@@ -61,7 +61,7 @@ fn strategy() -> BoxedStrategy<Case> {
         .prop_flat_map(|sess| {
             let nh = sess.suite.kdf.nh();
             let start = prop_oneof![4 => Just(0u64), 1 => gen::position()];
-            (Just(sess), proptest::collection::vec(gen::msg(600), 0..=6), proptest::collection::vec(export_req(nh), 0..=3), start)
+            (Just(sess), proptest::collection::vec(prop_oneof![30 => gen::msg(600), 1 => gen::msg(70_000)], 0..=6), proptest::collection::vec(export_req(nh), 0..=3), start)
         })
         .prop_map(|(mut sess, msgs, exports, start)| {
             // RFC 9180 SetupS is defined for every ikmE, including the one that reproduces the
